@@ -261,12 +261,16 @@ Vars(c) ==
                           V("lastline.last=~", pre \o WithLast(Run(b.cls, TypLen(b)), "~"))}
                  ELSE {})
 
-(* all contents with at most b deviating components *)
+(* all contents with at most b deviating components.  Besides label and characters a content carries its PARTS: the
+   characters each top-level component of the format contributed (<<>> for an absent optional one), which is what the
+   parsed value has to expose component by component (C03)                                                        *)
+VP(l, str, parts) == [l |-> l, s |-> str, p |-> parts]
 GenSeq(cs, k, b) ==
-  IF k > Len(cs) THEN {V("", <<>>)}
-  ELSE {V(r.l, Typ(cs[k]) \o r.s) : r \in GenSeq(cs, k + 1, b)}
-       \cup (IF b > 0 THEN {V(ToString(k) \o "." \o v.l \o (IF r.l = "" THEN "" ELSE " & " \o r.l), v.s \o r.s) :
+  IF k > Len(cs) THEN {VP("", <<>>, <<>>)}
+  ELSE {VP(r.l, Typ(cs[k]) \o r.s, <<Typ(cs[k])>> \o r.p) : r \in GenSeq(cs, k + 1, b)}
+       \cup (IF b > 0 THEN {VP(ToString(k) \o "." \o v.l \o (IF r.l = "" THEN "" ELSE " & " \o r.l), v.s \o r.s, <<v.s>> \o r.p) :
                                 v \in Vars(cs[k]), r \in GenSeq(cs, k + 1, b - 1)} ELSE {})
+NoParts(vs) == {VP(v.l, v.s, <<>>) : v \in vs}
 
 Trailing(s) == {V("end+X", s \o <<"X">>), V("end+space", s \o <<" ">>),
                 V("end+line", s \o <<"\n", "E", "X", "T", "R", "A">>), V("end+nl", s \o <<"\n">>)}
@@ -290,7 +294,7 @@ ChoicePairs(f) ==
                         lv \in LineVars(cs[k])} : k \in 2..Len(cs)}
           : ch \in Choice(cs[1])}
 
-Contents(f) == GenSeq(f.fmt, 1, Budget) \cup Trailing(TypSeq(f.fmt, 1)) \cup ChoicePairs(f)
+Contents(f) == GenSeq(f.fmt, 1, Budget) \cup NoParts(Trailing(TypSeq(f.fmt, 1))) \cup NoParts(ChoicePairs(f))
 
 (* -------------------------------- formats -------------------------------- *)
 PI       == Alt(<< <<Lit("/"), Cl("a", 1, 1), Lit("/"), Cl("x", 1, 34)>>, <<Lit("/"), Cl("x", 1, 34)>> >>)
@@ -412,7 +416,7 @@ TypicalAccepted == InLanguage(fld, TypSeq(fld.fmt, 1))
 (* nothing in the language is empty *)
 NonEmpty == InLanguage(fld, content.s) => Len(content.s) > 0
 
-Emit == EmitCases => PrintT(ToJson([tag |-> fld.tag, l |-> content.l, s |-> content.s,
+Emit == EmitCases => PrintT(ToJson([tag |-> fld.tag, l |-> content.l, s |-> content.s, p |-> content.p,
                                     accept |-> InLanguage(fld, content.s), amt |-> fld.amt, first |-> First(fld.fmt),
                                     idl |-> IdLine(fld.fmt)]))
 =============================================================================
